@@ -78,6 +78,10 @@ Fixpoint c06_spec_run (ctx:sec_ctx) (next stored dlx:N) (l:list (hop * bool * ob
         | Ok b => eqb_octets b p && (u =? next) && (d =? dlx) && c06_spec_run ctx next stored dlx r
         | _ => false
         end
+    | HRecv _ =>
+        (* a downlink message arrives in between (whatever it is and whatever becomes of it): the uplink COUNT is not its
+           business; the downlink estimate afterwards is C10's subject and is taken as observed *)
+        (u =? next) && c06_spec_run ctx next stored d r
     | _ => false
     end
   end.
